@@ -68,8 +68,16 @@ def _roundtrip(names, with_custom):
         custom = [custom_edge_class(g, P)] if with_custom else None
         load = (lambda f: g.Graph.from_g2o(f, custom_edge_types=custom)) if custom else (lambda f: g.Graph.from_g2o(f))
         G0 = load("f0.g2o")
+        order_v = [(v.id, type(v.pose)) for v in G0._vertices]
+        order_e = [(type(e), list(e.vertex_ids)) for e in G0._edges]
         G0.to_g2o("f1.g2o")
+        # exporting does not reorder (or otherwise change) the graph being exported ...
+        P.check("export_keeps_vertex_order", len(G0._vertices) == len(order_v) and all(v.id == i and type(v.pose) is t for v, (i, t) in zip(G0._vertices, order_v)))
+        P.check("export_keeps_edge_order", len(G0._edges) == len(order_e) and all(type(e) is t and list(e.vertex_ids) == ids_ for e, (t, ids_) in zip(G0._edges, order_e)))
         G1 = load("f1.g2o")
+        # ... and the re-imported graph has the element order the graph had BEFORE the export
+        P.check("reimport_vertex_order", len(G1._vertices) == len(order_v) and all(v.id == i and type(v.pose) is t for v, (i, t) in zip(G1._vertices, order_v)))
+        P.check("reimport_edge_order", len(G1._edges) == len(order_e) and all(type(e) is t and all(a == b for a, b in zip(e.vertex_ids, ids_)) for e, (t, ids_) in zip(G1._edges, order_e)))
         same_graph(P, g, "cycle1", G1, G0)
         G1.to_g2o("f2.g2o")
         G2 = load("f2.g2o")
